@@ -216,3 +216,24 @@ Fixpoint dispose (s : stack) : list Z :=
   | Cat _ parts => flat_map dispose parts
   | Wrap _ s' => dispose s'
   end.
+
+(* ---------- histories of accesses ---------- *)
+(* One step of a history: a bulk or per-sample access on some stack -- the composed stack, one of its parts, or
+   another stack built over the same part objects.  In the code every accessor builds its answer in containers it
+   creates itself (KDConcatDataset._call_getall: result = []; result += part_result -- KDSubset._call_getall:
+   [result[i] for i in self.indices]) and assigns no attribute; a root may hand out the container it keeps.  So no
+   access changes what any object answers afterwards: the model of a history needs no state, every step is answered
+   by the functions above.  (That the real objects behave like this -- no container kept by a root and no object
+   handed out earlier is ever written to -- is checked on the real heap by the harness.) *)
+Inductive hop := HGetall | HUtil | HLen | HItem (k : Z).
+Inductive hres := HRAll (g : gres) | HRLen (n : option Z) | HRItem (r : option sample).
+
+Definition eval_op (s : stack) (o : hop) : hres :=
+  match o with
+  | HGetall => HRAll (getall s)
+  | HUtil => HRAll (util_getall s)
+  | HLen => HRLen (slen s)
+  | HItem k => HRItem (resolve s k)
+  end.
+
+Definition run_hist (h : list (stack * hop)) : list hres := map (fun so => eval_op (fst so) (snd so)) h.
